@@ -1937,3 +1937,58 @@ def callee_names(fn_node: ast.AST, call: ast.Call) -> List[Tuple[str, Optional[a
             if nm(v):
                 return [(nm(v), None, None)]
     return [(call_name(call), None, None)]
+
+
+# ---------------------------------------------------------------------------------------------------------------------
+# (line, column) pairs (shared C01 / C02 / C06 / C08)
+
+def position_pair_rule(ctx, res, rule: str, modules) -> None:
+    """An AST node has two positions: (lineno, col_offset) where it starts and (end_lineno, end_col_offset) where it ends.  A
+    column means nothing without ITS line: `end_col_offset` counts from the start of line `end_lineno`.  (a) wherever a
+    call is handed a line number attribute and a column attribute, both belong to the same node and to the same end of it;
+    (b) wherever a column is converted with `column_to_offset(<line text>, <column>)` and the line text can be traced to
+    `get_line(<node>.<lineno attribute>)`, that attribute is the column's own.  For a node written on one line either mix
+    gives the right answer, which is why tests do not notice."""
+    idx = ctx.idx
+    START, END = ("lineno", "col_offset"), ("end_lineno", "end_col_offset")
+    n = 0
+
+    def kind(e):
+        """(owner text, 'start'|'end', 'line'|'col') for X.lineno / X.end_col_offset ..."""
+        if isinstance(e, ast.Attribute) and e.attr in START + END and dotted(e.value):
+            return dotted(e.value), ("start" if e.attr in START else "end"), ("line" if "lineno" in e.attr else "col")
+        return None
+
+    for f in sorted(idx.functions.values(), key=lambda f: f.qualname):
+        if f.unit.modname not in modules or isinstance(f.node, ast.Lambda):
+            continue
+        short = f.qualname.split(".", 2)[-1].replace(".<locals>", "")
+        k_pair = k_conv = 0
+        for c in calls_in(f.node):
+            ks = [(a, kind(a)) for a in c.args if kind(a)]
+            lines = [k for _, k in ks if k[2] == "line"]
+            cols = [k for _, k in ks if k[2] == "col"]
+            if len(lines) == 1 and len(cols) == 1:
+                n += 1
+                k_pair += 1
+                ok = lines[0][:2] == cols[0][:2]
+                res.add(rule, f"{short}|line-and-column-of-the-same-end#{k_pair}", ok, f"{f.unit.rel}:{c.lineno}",
+                        "the line number and the column belong to the same end of the same node" if ok else
+                        f"`{ast.unparse(c)[:80]}` combines the column of the node's {cols[0][1]} with the line of its {lines[0][1]}"
+                        + ("" if lines[0][0] == cols[0][0] else f" (and of another node: {lines[0][0]} / {cols[0][0]})") +
+                        ": for an expression written over several lines the offset lies on the wrong line -- a wrapped default or argument is cut in the wrong place, or a "
+                        "name on its continuation line is attributed to the wrong scope", function=f.qualname)
+            if call_name(c) == "column_to_offset" and len(c.args) >= 2 and kind(c.args[1]):
+                line_e = _subst_single_locals(f.node, c.args[0])
+                gl = next((x for x in ast.walk(line_e) if isinstance(x, ast.Call) and call_name(x) == "get_line" and x.args and kind(x.args[0])), None)
+                if gl is not None:
+                    n += 1
+                    k_conv += 1
+                    lk, ck = kind(gl.args[0]), kind(c.args[1])
+                    ok = lk[:2] == ck[:2]
+                    res.add(rule, f"{short}|column-converted-on-its-own-line#{k_conv}", ok, f"{f.unit.rel}:{c.lineno}",
+                            "the column is converted against the text of its own line" if ok else
+                            f"`{ast.unparse(c)[:80]}` converts the column of the node's {ck[1]} against the text of the line of its {lk[1]} "
+                            f"(`{ast.unparse(gl)}`): a byte column is turned into a character column by the text in front of it ON ITS LINE; for a node that spans lines, "
+                            "non-ASCII text on only one of the two lines shifts the offset", function=f.qualname)
+    res.analysed[f"line/column pairs:{rule}"] = n
